@@ -24,6 +24,7 @@ def commuteSoundAt (self cur : UOp) (tcols : Cols) (l : List Row) : Prop :=
        self.wfOn sc = true ∧
        self.sem (self.appliedColumns sc) (c.second.sem sc (f.sem fc l)) =
          self.sem (self.appliedColumns ccols) (cur.sem ccols l) ∧
-       (∀ x, x ∈ self.appliedColumns sc ↔ x ∈ self.appliedColumns ccols))
+       (∀ x, x ∈ self.appliedColumns sc ↔ x ∈ self.appliedColumns ccols) ∧
+       (∀ x, x ∈ sc → x ∈ ccols))
 
 end DafRel
